@@ -32,7 +32,8 @@ DROPPED = {"mphantom", "annotation", "annotation-xml", "mspace", "malignmark", "
 
 
 def norm_chars(s):
-    """per leaf: nothing yet (the normalization is applied to the whole character sequence, see [canon])"""
+    """per leaf: nothing (see dash_token for the one per-token normalization; the rest is applied to the whole character
+    sequence, see [canon])"""
     return s
 
 
@@ -59,6 +60,8 @@ def visible_in(e):
         if tag == "mglyph":
             return norm_chars(e.get("alt", ""))
         text = "".join(e.itertext()) if tag != "ms" else "".join(e.itertext())
+        if tag in ("mi", "mtext") and text.strip(" \t\n\r") in ("--", "---", "----"):
+            text = "-"           # canonicalize_dash: an mi / mtext that IS two to four hyphens becomes a dash character
         for g in e.iter():
             if g is not e and g.tag.split("}")[-1] == "mglyph":
                 text += g.get("alt", "")
@@ -177,6 +180,29 @@ def degenerate(rng, depth=3):
     return out
 
 
+# ---------------------------------------------------------------- tokens whose text mixes ordinary and special characters
+PIECES = ["f", "x", "y", "12", "3", "A", "sin", "arc", "d", "&#x3B1;", "'", "'", "&#x2032;", "&#x2033;", "&#x2034;", "&#x2057;", ".", "..", "...", "&#x2026;", "-", "&#x2212;",
+          "--", "---", "|", "||", "&#x2016;", "&#xB0;", "%", "&#xA0;", " ", ",", "=", "+", "!", "&#x338;", "&#x305;", "_", "&#xAF;", "~", "^", "*", "&#x2061;", "&#x2062;", ":", "/"]
+
+
+def mixed_tokens(rng):
+    """a short row or script whose tokens carry mixed text: f', '=, x.., 1-2, sin' ... (every character must survive)"""
+    def tok():
+        tag = rng.choice(["mi", "mi", "mo", "mo", "mn", "mtext"])
+        text = "".join(rng.choice(PIECES) for _ in range(rng.randint(1, 3)))
+        if not text.strip():
+            text = "x" + text
+        return "<%s>%s</%s>" % (tag, text, tag)
+    plain = ["<mi>a</mi>", "<mn>2</mn>", "<mo>+</mo>", "<mo>(</mo>", "<mo>)</mo>", "<mi>z</mi>"]
+    kids = [tok() if rng.random() < 0.6 else rng.choice(plain) for _ in range(rng.randint(1, 5))]
+    r = rng.random()
+    if r < 0.6:
+        return "<math><mrow>%s</mrow></math>" % "".join(kids)
+    if r < 0.8:
+        return "<math><msup>%s%s</msup></math>" % (kids[0], tok())
+    return "<math><mfrac><mrow>%s</mrow>%s</mfrac></math>" % ("".join(kids), tok())
+
+
 # ---------------------------------------------------------------- shrinking a failing input
 def shrink(xml, fails, budget=200):
     """greedy reduction of an XML string: delete or hoist sub-elements while `fails(xml)` stays true"""
@@ -291,6 +317,7 @@ def corpus(res):
     bodies += [b for b in (c03.to_xml(t) for t in c03.cases(rng, 250 * n, [t for t, _ in entries])) if "data-" not in b]
     bodies += [degenerate(rng, rng.randint(1, 3)) for _ in range(400 * n)]
     bodies += [merge_rows(rng) for _ in range(500 * n)]
+    bodies += [mixed_tokens(rng) for _ in range(400 * n)]
     return bodies
 
 
